@@ -239,6 +239,68 @@ auto scenario_row_copy(fcppt::math::matrix::static_<scalar, R, C> const &_m)
   return fcppt::math::vector::static_<scalar, C>{fcppt::math::matrix::at_r<I>(_m)};
 }
 
+// construction from rows / from elements
+auto scenario_rows_2x3(
+    scalar const &_a,
+    scalar const &_b,
+    scalar const &_c,
+    scalar const &_d,
+    scalar const &_e,
+    scalar const &_f)
+{
+  return fcppt::math::matrix::static_<scalar, 2, 3>{
+      fcppt::math::matrix::row(_a, _b, _c), fcppt::math::matrix::row(_d, _e, _f)};
+}
+
+auto scenario_rows_3x2(
+    scalar const &_a,
+    scalar const &_b,
+    scalar const &_c,
+    scalar const &_d,
+    scalar const &_e,
+    scalar const &_f)
+{
+  return fcppt::math::matrix::static_<scalar, 3, 2>{
+      fcppt::math::matrix::row(_a, _b),
+      fcppt::math::matrix::row(_c, _d),
+      fcppt::math::matrix::row(_e, _f)};
+}
+
+auto scenario_elements_4(scalar const &_a, scalar const &_b, scalar const &_c, scalar const &_d)
+{
+  return fcppt::math::vector::static_<scalar, 4>{_a, _b, _c, _d};
+}
+
+auto scenario_dim_elements_3(scalar const &_a, scalar const &_b, scalar const &_c)
+{
+  return fcppt::math::dim::static_<scalar, 3>{_a, _b, _c};
+}
+
+template <size_type N>
+void named_accessors()
+{
+  using vec = fcppt::math::vector::static_<scalar, N>;
+  using dm = fcppt::math::dim::static_<scalar, N>;
+  vec const &a{drv::clv<vec>()};
+  dm const &b{drv::clv<dm>()};
+  (void)a.x();
+  (void)b.w();
+  if constexpr (N > 1)
+  {
+    (void)a.y();
+    (void)b.h();
+  }
+  if constexpr (N > 2)
+  {
+    (void)a.z();
+    (void)b.d();
+  }
+  if constexpr (N > 3)
+  {
+    (void)a.w();
+  }
+}
+
 DRV(drv_math_shapes)
 {
   shapes_row<1>();
@@ -261,6 +323,15 @@ DRV(drv_math_shapes)
   (void)scenario_row_scale<2, 3, 1>(drv::clv<m23>(), drv::clv<scalar>());
   (void)scenario_row_copy<2, 3, 1>(drv::clv<m23>());
   (void)scenario_row_copy<3, 3, 2>(drv::clv<m33>());
+  scalar const &s{drv::clv<scalar>()};
+  (void)scenario_rows_2x3(s, s, s, s, s, s);
+  (void)scenario_rows_3x2(s, s, s, s, s, s);
+  (void)scenario_elements_4(s, s, s, s);
+  (void)scenario_dim_elements_3(s, s, s);
+  named_accessors<1>();
+  named_accessors<2>();
+  named_accessors<3>();
+  named_accessors<4>();
 }
 
 DRV(drv_math_vectors)
